@@ -29,6 +29,9 @@ func genC06(r *core.Rand, p *core.Plan) {
 	if r.Chance(1, 2) {
 		p.Cfg["btcd_rescan"] = 1 // the backend matches spends by watched outpoint only
 	}
+	if r.Chance(1, 4) {
+		p.Cfg["yield_after_unlock"] = 1
+	}
 	m := []int64{1, 2, 3, 5}[r.Intn(4)]
 	p.Cfg["maturity"] = m
 	// addresses on every default scope of account 0, a second account, then funds
